@@ -65,6 +65,21 @@ class C19(KernelProp):
                                 {"op": "exit", "t": 1, "c": 3, "end": {"k": "ret"}}, {"op": "exit", "t": 0, "c": 2, "end": {"k": "ret"}},
                                 {"op": "exit", "t": 0, "c": 1, "end": {"k": "ret"}}]
                         cases.append({"kind": "ctx", "backend": backend, "origin": f"pair:{order}:{form}:{n_static}", "ops": ops})
+        # several injected functions defined and decorated in one enclosing function before any of them is called,
+        # their annotations naming classes local to that function (forward references resolved at the first call)
+        for backend in ("asyncio", "trio"):
+            for is_async in (False, True):
+                for form, opt in (("plain", False), ("optional", True), ("pep604", True)):
+                    mates = [{"async": is_async, "others": [],
+                              "deps": [{"param": "r", "ty": k, "name": "a", "opt": opt, "form": form, "kind": "normal"}]}
+                             for k in (0, 1, 0)]
+                    ops = [{"op": "new", "t": 0, "c": 1, "parent": None}, {"op": "enter", "t": 0, "c": 1},
+                           add(0, 1, 0, "a", 5), add(0, 1, 1, "a", 6)]
+                    for me, m in enumerate(mates):
+                        ops.append({"op": "inject", "t": 0, **m, "badUnion": False, "future": True, "scope": 1, "me": me,
+                                    "mates": mates})
+                    ops.append({"op": "exit", "t": 0, "c": 1, "end": {"k": "ret"}})
+                    cases.append({"kind": "ctx", "backend": backend, "origin": f"scope:{is_async}:{form}", "ops": ops})
         return cases
 
     def nontrivial(self, case, impl):
